@@ -17,8 +17,10 @@ INPUT  already-dissected packets `TLX.Quic.Pkt` (the dissector `extract_quic_pac
                                                 comes AFTER the epoch was advanced)
   decrypt_packet (186-229)                      `selectDecryptor`, `getFullPn`, `assocData`, `decDecrypt`,
                                                 `handleFrames`, `decryptPacket` (try/except: error value + state)
-  get_full_packet_number (351-395)              `getFullPn` over `PktNum.implDecode`/`implUpdate` (C16); first-packet
-                                                shortcut returns the RAW truncated bytes; table updated before decryption
+  get_full_packet_number                        `getFullPn` over `PktNum.implDecode` (C16), PURE; first-packet shortcut
+                                                returns the RAW truncated bytes
+  set_largest_packet_number                     `setLargestPn`: stored after `decryptor.decrypt` succeeded (repair 45c871e);
+                                                `Legacy.*` = the code before (table updated before decryption)
   QuicDecryptor.decrypt (quic_decryptor.py)     `decDecrypt`: nonce = zip(left-zero-padded pn, iv) XOR (zip truncates
                                                 to the shorter: a pn longer than the iv loses its LOW bytes' partners)
   handle_frame / handle_crypto_frame (140-168)  `handleFrame`
@@ -55,6 +57,11 @@ OBSERVATIONS on the code as it is (mirrored here; each replayed on the real code
     while the epochs keep their values.
   * the only raise sites outside decrypt_packet's try/except need a `ShortQuicPacket` typed VERSION_NEG / INITIAL,
     which `extract_quic_packet` never builds (`session_total`, `session_total_counterexample`).
+
+REPAIRED (45c871e): the largest packet number of a space used to be stored inside `get_full_packet_number`, i.e. BEFORE the
+  AEAD check; one unauthenticated packet with a far-away number made every later packet of that direction and space
+  fail (`Legacy.*`, `Props.C02Session.legacy_pn_poisoned`). Now `set_largest_packet_number` runs after
+  `decryptor.decrypt` succeeded (`Props.C02Session.failed_packet_leaves_pn_table`).
 
 NOT modelled: `alpn`, `greasy_bit`, frame/packet buffers that are never read, `build_output`, `reset()` (never
 called), `matches_session_*` (main-loop model), the payload of the VERSION_NEG pseudo frame (`Pkt` has no field
@@ -330,18 +337,25 @@ def pnResult (largest : Nat) (pnb : Bytes) : Except PyErr Bytes :=
   else if PktNum.implDecode (2 ^ (8 * pnb.length)) (2 ^ 62) largest (Bytes.beNat pnb) ≥ u64Bound then .error .overflow
   else .ok (Bytes.ofNatBE 8 (PktNum.implDecode (2 ^ (8 * pnb.length)) (2 ^ 62) largest (Bytes.beNat pnb)))
 
-/-- `get_full_packet_number`: the table is updated first, then the bytes handed to `QuicDecryptor.decrypt` are built -/
-def getFullPn (s : St σ) (p : Pkt) : St σ × Except PyErr Bytes :=
+/-- `get_full_packet_number`: pure since the repair "only an authenticated QUIC packet moves the largest packet number of
+    its space" — it reads the table and builds the bytes handed to `QuicDecryptor.decrypt`; nothing is stored -/
+def getFullPn (s : St σ) (p : Pkt) : Except PyErr Bytes :=
   match p.ptype.space with
-  | none => (s, .error .key)                        -- PACKET_TYPE_MAP[RETRY / VERSION_NEG]
+  | none => .error .key                             -- PACKET_TYPE_MAP[RETRY / VERSION_NEG]
   | some sp =>
-    if !hasPnAttr p then (s, .error .attr) else
+    if !hasPnAttr p then .error .attr else
     match p.pn with
-    | none => (s, .error .type)                     -- int.from_bytes(None)
-    | some pnb =>
-      (pnStore s p.isServer sp (PktNum.implUpdate (pnLargest s p.isServer sp)
-          (PktNum.implDecode (2 ^ (8 * pnb.length)) (2 ^ 62) (pnLargest s p.isServer sp) (Bytes.beNat pnb))),
-       pnResult (pnLargest s p.isServer sp) pnb)
+    | none => .error .type                          -- int.from_bytes(None)
+    | some pnb => pnResult (pnLargest s p.isServer sp) pnb
+
+/-- `set_largest_packet_number(quic_packet, packet_number)`: `out_pkn = int.from_bytes(packet_number)` (the raw bytes of
+    the first-packet shortcut, or the 8-byte encoding); `if out_pkn > table[…]: table[…] = out_pkn` per direction and
+    space. Called only after `get_full_packet_number` succeeded for the same packet, so `PACKET_TYPE_MAP[…]` cannot
+    raise here (`none` branch). -/
+def setLargestPn (s : St σ) (p : Pkt) (pn : Bytes) : St σ :=
+  match p.ptype.space with
+  | none => s
+  | some sp => pnStore s p.isServer sp (PktNum.implUpdate (pnLargest s p.isServer sp) (Bytes.beNat pn))
 
 def cat (l : List (Option Bytes)) : Option Bytes :=
   l.foldr (fun x acc => match x, acc with | some a, some b => some (a ++ b) | _, _ => none) (some [])
@@ -418,12 +432,55 @@ def handleFrames (P : Params σ) (s : St σ) (p : Pkt) : List Frame.Parsed → S
     | (s, some e) => (s, some e)
     | (s, none) => handleFrames P s p fs
 
-/-- `decrypt_packet` after the decryptor was looked up (`d? = none`: the name `decryptor` is unbound) -/
+/-- `decrypt_packet` after the decryptor was looked up (`d? = none`: the name `decryptor` is unbound). The largest
+    packet number is stored right after `decryptor.decrypt(…)` returned and before `parse_frames`: every failure up to
+    and including the AEAD check leaves the state as it was; exceptions of `parse_frames` / `handle_frame` come after
+    the store. -/
+def decryptRest (P : Params σ) (s : St σ) (p : Pkt) (d? : Option Dec) : St σ × Option PyErr :=
+  match getFullPn s p with
+  | .error e => (s, some e)
+  | .ok pn =>
+    -- the AAD statements come first; with no case matched both names are unbound (same exception kind)
+    match assocData p with
+    | .error e => (s, some e)
+    | .ok aad =>
+      match d? with
+      | none => (s, some .unbound)
+      | some d =>
+        match decDecrypt P d p.payload pn aad p.isServer with
+        | .error e => (s, some e)
+        | .ok pt =>
+          match Frame.parseFrames pt with
+          | none => (setLargestPn s p pn, some .index)
+          | some fs => handleFrames P (setLargestPn s p pn) p fs
+
+/-- `decrypt_packet`: the state afterwards and the exception its try/except swallowed -/
+def decryptPacket (P : Params σ) (s : St σ) (p : Pkt) : St σ × Option PyErr :=
+  match selectDecryptor P s p with
+  | (s, .error e) => (s, some e)
+  | (s, .ok d?) => decryptRest P s p d?
+
+/-! ### the code before the repair (kept for the witness theorem `Props.C02Session.legacy_pn_poisoned`) -/
+
+namespace Legacy
+
+/-- old `get_full_packet_number`: the table was updated BEFORE the AEAD check -/
+def getFullPn (s : St σ) (p : Pkt) : St σ × Except PyErr Bytes :=
+  match p.ptype.space with
+  | none => (s, .error .key)
+  | some sp =>
+    if !hasPnAttr p then (s, .error .attr) else
+    match p.pn with
+    | none => (s, .error .type)
+    | some pnb =>
+      (pnStore s p.isServer sp (PktNum.implUpdate (pnLargest s p.isServer sp)
+          (PktNum.implDecode (2 ^ (8 * pnb.length)) (2 ^ 62) (pnLargest s p.isServer sp) (Bytes.beNat pnb))),
+       pnResult (pnLargest s p.isServer sp) pnb)
+
 def decryptRest (P : Params σ) (s : St σ) (p : Pkt) (d? : Option Dec) : St σ × Option PyErr :=
   match getFullPn s p with
   | (s, .error e) => (s, some e)
   | (s, .ok pn) =>
-    -- the AAD statements come first; with no case matched both names are unbound (same exception kind)
     match assocData p with
     | .error e => (s, some e)
     | .ok aad =>
@@ -437,11 +494,12 @@ def decryptRest (P : Params σ) (s : St σ) (p : Pkt) (d? : Option Dec) : St σ 
           | none => (s, some .index)
           | some fs => handleFrames P s p fs
 
-/-- `decrypt_packet`: the state afterwards and the exception its try/except swallowed -/
 def decryptPacket (P : Params σ) (s : St σ) (p : Pkt) : St σ × Option PyErr :=
   match selectDecryptor P s p with
   | (s, .error e) => (s, some e)
   | (s, .ok d?) => decryptRest P s p d?
+
+end Legacy
 
 /-! ### handle_quic_packet / handle_packet -/
 
@@ -481,6 +539,12 @@ def afterDecrypt (P : Params σ) (s : St σ) (caught : Option PyErr) (p : Pkt) :
 def stepPkt (P : Params σ) (s : St σ) (p : Pkt) : StepRes σ :=
   if p.ptype ≠ .retry ∧ p.ptype ≠ .versionNeg then
     afterDecrypt P (decryptPacket P s p).1 (decryptPacket P s p).2 p
+  else afterDecrypt P s none p
+
+/-- one loop turn of `handle_quic_packet` on the code before the pn-store repair -/
+def Legacy.stepPkt (P : Params σ) (s : St σ) (p : Pkt) : StepRes σ :=
+  if p.ptype ≠ .retry ∧ p.ptype ≠ .versionNeg then
+    afterDecrypt P (Legacy.decryptPacket P s p).1 (Legacy.decryptPacket P s p).2 p
   else afterDecrypt P s none p
 
 /-- the loop of `handle_quic_packet`; stops at an escaping exception. Returns the swallowed exceptions in order. -/
